@@ -309,7 +309,7 @@ RE_GOTO = re.compile(r'^goto -> bb(\d+)$')
 RE_SWITCH = re.compile(r'^switchInt\((.*)\) -> \[(.*)\]$')
 RE_ASSERT = re.compile(r'^assert\((!?)(.*?), "(.*)"(?:, .*)?\) -> \[success: bb(\d+), unwind.*\]$')
 RE_DROP = re.compile(r'^drop\((.*)\) -> \[return: bb(\d+), .*\]$')
-RE_CALL = re.compile(r'^(?:(.*?) = )?(.*?)(?: -> \[return: bb(\d+), unwind.*\]| -> unwind.*)$')
+RE_CALL = re.compile(r'^(?:(.*?) = )?(.*?)(?: -> \[return: bb(\d+), unwind.*\]| -> unwind.*| -> bb\d+)$')
 RE_ARGLOCAL = re.compile(r'^(?:no_retag )?(?:copy|move) _(\d+)$')
 
 BINOPS = {'Eq', 'Ne', 'Lt', 'Le', 'Gt', 'Ge', 'Add', 'Sub', 'Mul', 'Div', 'Rem', 'AddWithOverflow', 'SubWithOverflow',
